@@ -155,6 +155,8 @@ pub mod verif {
     pub mod serializer {
         pub use super::super::serializer::*;
     }
+    /// argument type of `serializer::gen_settings` (module `h2` is private)
+    pub use super::h2::H2Settings;
     use super::stream::Stream;
 
     /// `shared::end_stream_decision` as a stable string
